@@ -47,12 +47,12 @@ var kinds = []kind{
 	{"dpos.RewardData", func() codec { return state.NewRewardData() }, true},
 	{"dpos.StateKeyFrame", func() codec { return state.NewStateKeyFrame() }, true},
 	{"cr.ProposalKeyFrame", func() codec { return crstate.NewProposalKeyFrame() }, true},
-	{"cr.KeyFrame", func() codec { return crstate.NewKeyFrame() }, false},
-	{"cr.StateKeyFrame", func() codec { return crstate.NewStateKeyFrame() }, false},
-	{"dpos.CheckPoint", func() codec { return &state.CheckPoint{StateKeyFrame: *state.NewStateKeyFrame()} }, false},
+	{"cr.KeyFrame", func() codec { return crstate.NewKeyFrame() }, true},
+	{"cr.StateKeyFrame", func() codec { return crstate.NewStateKeyFrame() }, true},
+	{"dpos.CheckPoint", func() codec { return &state.CheckPoint{StateKeyFrame: *state.NewStateKeyFrame()} }, true},
 	{"cr.Checkpoint", func() codec {
 		return &crstate.Checkpoint{KeyFrame: *crstate.NewKeyFrame(), StateKeyFrame: *crstate.NewStateKeyFrame(), ProposalKeyFrame: *crstate.NewProposalKeyFrame()}
-	}, false},
+	}, true},
 }
 
 func kindOf(name string) *kind {
